@@ -143,7 +143,7 @@ def replay_item(t):
 
 
 def run_family(pid, tier, rule, select, want=lambda p: True, cap=None, wrappers=("cvxpy",), extra_paths=None,
-               assumptions=(), design="6"):
+               assumptions=(), design="6", always=(), transform=None):
     """select(trace, clause) -> None | (signature, text): maps a SolveTrace clause [step, prop, name, detail] to a
     violation of property `pid` (or ignores it)."""
     res = Result(pid, tier)
@@ -157,6 +157,9 @@ def run_family(pid, tier, rule, select, want=lambda p: True, cap=None, wrappers=
         rest = [p for p in progs if p not in keep]
         rnd.shuffle(rest)
         progs = (keep + rest)[:cap[tier]]
+    if transform:
+        progs = [transform(p) for p in progs]
+    progs = list(always) + progs
     items = [fix_opts(p) for p in progs]
     traces = drive(items, extra_paths)
     res.traces = res.evaluations = len([t for t in traces if t["solves"]])
